@@ -16,5 +16,5 @@ echo "== baseline tests with the change:"
 ( cd "$WT" && CARGO_TARGET_DIR=/verif/build/alt/seedtest-target timeout 1500 cargo test --workspace --no-fail-fast --offline 2>&1 | grep "test result" | head -2 )
 for c in "$@"; do
   echo "== check $c against the changed tree:"
-  ( cd /verif && VERIF_REPO="$WT" timeout 3000 ./check "$c" --seed ${SEED:-1} 2>&1 | grep -E "VIOLATION|KNOWN-FINDING|^\[$c\]" | cut -c1-300 | head -8; echo "exit=${PIPESTATUS[0]}" )
+  ( cd /verif && VERIF_REPO="$WT" timeout 3000 ./check "$c" --seed ${SEED:-1} 2>&1 | grep -E "VIOLATION|KNOWN-FINDING|^\[$c\]" | cut -c1-300 | head -${HEADN:-8}; echo "exit=${PIPESTATUS[0]}" )
 done
